@@ -110,3 +110,18 @@ Proof.
   - contradiction.
   - apply pipeline_two_outcomes; [apply Hs; reflexivity | exact Ho].
 Qed.
+
+(* ---- from bytes: the same, with the abstraction computed from the file's bytes by the parser models ---- *)
+From PV Require Model.LoaderBytes.
+
+Theorem full_bytes_two_outcomes rel toks s :
+  (forall c root, Loader.load (LoaderBytes.abstract_file rel s) = Loader.Loaded c root -> small_pages rel toks (objs_of c) root) ->
+  (forall d c, dec rel toks d c <> Fuel) ->
+  full_bytes rel toks s = PAccepted \/ full_bytes rel toks s = PRejected.
+Proof. intros Hs Ho. unfold full_bytes. apply full_two_outcomes; assumption. Qed.
+
+Theorem full_bytes_no_panic_release toks s : full_bytes true toks s <> PPanicked.
+Proof.
+  unfold full_bytes, full. destruct (Loader.load (LoaderBytes.abstract_file true s)); try discriminate.
+  apply pipeline_no_panic_release.
+Qed.
